@@ -176,6 +176,11 @@ def run_shard(sh, rec):
             continue
         if scls == "slab":
             rec.count("slab_objects")
+        if np.iscomplexobj(getattr(s, "spectral_field_buffer", None)):
+            # la.eig returns complex arrays under NumPy >= 2: the 3-D class then works in complex arithmetic and
+            # only yields a real field through a silent complex->real cast (ComplexWarning).  Not a violation of
+            # the property (the returned field is real and is checked below); recorded for the evidence.
+            rec.count("objects_working_in_complex_arithmetic")
         szcls = "s" if max(shape) <= 8 else "m" if max(shape) <= 24 else "l"
         base = (d, sh["dtype"], szcls, scls == "slab", dxcls)
         lmin = lam_min(shape, dx)
